@@ -426,7 +426,7 @@ pub fn run(args: &Args) -> i32 {
                 let tbl = match build_table(&mut rng, "c16", &query_pool(), max_rows, &versions, false).await {
                     Ok(t) => t,
                     Err(e) => {
-                        report.harness_error(&format!("case {case}: table setup failed: {e}"));
+                        op_failed(&report, &format!("case {case}: table setup failed: {e}"));
                         return;
                     }
                 };
@@ -435,7 +435,7 @@ pub fn run(args: &Args) -> i32 {
                 let df = match DfRef::new(m.to_batch()) {
                     Ok(d) => d,
                     Err(e) => {
-                        report.harness_error(&format!("case {case}: datafusion reference: {e}"));
+                        op_failed(&report, &format!("case {case}: datafusion reference: {e}"));
                         return;
                     }
                 };
@@ -454,7 +454,7 @@ pub fn run(args: &Args) -> i32 {
                                 );
                             }
                         }
-                        Err(e) => report.harness_error(&format!("case {case}: full scan failed: {e:?}")),
+                        Err(e) => op_failed(&report, &format!("case {case}: full scan failed: {e:?}")),
                     }
                 }
                 let gen = PredGen::new(
@@ -483,7 +483,7 @@ pub fn run(args: &Args) -> i32 {
                             (ids, float_disagree)
                         }
                         RefOutcome::HarnessError(e) => {
-                            report.harness_error(&format!("case {case} q{qi}: {e} table {}", tbl.desc));
+                            op_failed(&report, &format!("case {case} q{qi}: {e} table {}", tbl.desc));
                             continue;
                         }
                     };
@@ -593,7 +593,26 @@ pub fn run(args: &Args) -> i32 {
                                     }
                                     let mut sig = if ki == 0 || v.sig.starts_with("limit-zero") { v.sig.clone() } else { format!("knobs-{}", v.sig) };
                                     let got_set: BTreeSet<i64> = out.ids().into_iter().collect();
-                                    if q.limit.is_none() && q.offset.is_none() {
+                                    if q.limit.is_some() || q.offset.is_some() {
+                                        // limited scan: the rows that do not match are NULL in a column with merged
+                                        // in-lists and DataFusion's own pipeline also returns them
+                                        let cols = pred.mergeable_inlist_columns(false);
+                                        if !cols.is_empty() && order_idx.is_none() {
+                                            if let Ok(b) = df.ids_where_full_sql(&sql).await {
+                                                let extras: Vec<i64> = got_set.difference(&ids).copied().collect();
+                                                let avail = b.len().saturating_sub(q.offset.unwrap_or(0).max(0) as usize);
+                                                let want = q.limit.map(|l| avail.min(l.max(0) as usize)).unwrap_or(avail);
+                                                if !extras.is_empty()
+                                                    && got_set.is_subset(&b)
+                                                    && got_set.len() == want
+                                                    && extras.iter().all(|id| m.rows.get(id).map(|r| cols.iter().any(|c| r[*c].is_null())).unwrap_or(false))
+                                                {
+                                                    sig = DF_NOT_IN_SIG.to_string();
+                                                    quirk_count = Some(b.len());
+                                                }
+                                            }
+                                        }
+                                    } else if q.limit.is_none() && q.offset.is_none() {
                                         if let Some(qs) = quirk_sig(&got_set, &ids, &pred, &sql, m, &df).await {
                                             sig = qs.to_string();
                                             quirk_count = Some(got_set.len());
@@ -660,6 +679,17 @@ pub fn run(args: &Args) -> i32 {
                         let k2 = Knobs { use_stats: Some(false), ..Default::default() };
                         if let Ok(n) = run_count(&tbl.ds, &q, &k2).await {
                             stats_off_count_ok = n as usize == ids.len();
+                        }
+                    }
+                    if executed && !selftest && quirk_count.is_none() && !pred.mergeable_inlist_columns(false).is_empty() {
+                        // count_rows of a filter hit by the shared in-list rewrite: DataFusion's full pipeline tells
+                        if let Ok(b) = df.ids_where_full_sql(&sql).await {
+                            if b != ids && ids.is_subset(&b) {
+                                let cols = pred.mergeable_inlist_columns(false);
+                                if b.difference(&ids).all(|id| m.rows.get(id).map(|r| cols.iter().any(|c| r[*c].is_null())).unwrap_or(false)) {
+                                    quirk_count = Some(b.len());
+                                }
+                            }
                         }
                     }
                     if executed && !selftest {
